@@ -29,6 +29,9 @@ def add (a : Attrs) (k : String) (v : Val) : Attrs × Bool :=
 
 def keys (a : Attrs) : List String := a.map (·.1)
 
+/-- attributes in ascending name order (`keys.sort_by(|a, b| a.cmp(b))` in `Display for Attributes`) -/
+def sorted (a : Attrs) : Attrs := a.mergeSort (fun x y => decide (x.1 ≤ y.1))
+
 end Attrs
 
 structure GNode where
